@@ -23,13 +23,13 @@ MANIFEST = dict(
           'item sequences, matching does not depend on || levels (|| -> | leaves `matched` unchanged), every offered candidate '
           'carries one level (the lowest that has a candidate extending the prefix) and extends the typed prefix, the '
           'word-break stripping lemmas, and the decided domain C01_domain implies its declarative reading at every point the '
-          'specification visits (C01_domain_sound, C01_domain_along_runs). About the script itself: C01_bash_meaning_mixed proves that '
+          'specification visits (C01_domain_sound, C01_domain_along_runs). About the script itself: C01_bash_meaning proves that '
           'BashSem.run_from Repaired (the interpreter of the /repo HEAD script, within-word functions included) on '
-          'Tables.all_tables Bash (Driver.compile_valid v) returns the status and, as sets, the required candidates of '
-          'Meaning.complete (required included in allowed) for every validated tree whose leaves are literals, commands, undefined '
-          'nonterminals and within-word expressions made of literals, on C01_domain outside ambiguous_run (two side conditions on '
-          'the compiled automaton with decidable sufficient forms: C01_subword_side_conditions); commands and undefined '
-          'nonterminals inside words are only stated (C01_bash_meaning_statement). The implementation is judged directly: the extracted Meaning.complete against the emitted '
+          'Tables.all_tables Bash (Driver.compile_valid v) returns the status of Meaning.complete and required <= reply <= allowed '
+          'for every validated tree (literals, commands, undefined nonterminals, within-word expressions over the same pieces) on '
+          'C01_domain/C01_env_ok outside ambiguous_run and outside the known mechanism KnownC01.greedy_shadow, for COMP_WORDBREAKS '
+          'default and empty (C01_bash_meaning_wordbreaks); side conditions on the compiled automaton and the literal orders have '
+          'decidable sufficient forms (C01_subword_side_conditions). The implementation is judged directly: the extracted Meaning.complete against the emitted '
           'script in real bash 5.2 on generated grammars inside the decided domain C01_domain (exhaustive small trees + seeded '
           'random grammars with definitions, descriptions, three || levels, within-word expressions, [], ...) x residual-set '
           'paths x prefixes x COMP_WORDBREAKS in {default, empty}; deviations are attributed to mechanism classes '
